@@ -62,7 +62,13 @@ def r_overflow(ctx, model):
         cls = q.split(".")[0]
         cref = f"{NS}:{cls}"
         if cls not in mod.classes:
-            raise AnalysisError(f"exp() evaluated outside a class in {q}")
+            # a module-level helper: analysed where a class calls it (with the class of the actual argument); it must be called
+            called = any(isinstance(c, ast.Call) and isinstance(c.func, ast.Name) and c.func.id == q for g in mod.funcs.values() for c in ast.walk(g))
+            if not called and "." not in q:
+                raise AnalysisError(f"exp() evaluated in {q}, a function nothing in the module calls")
+            if "." in q and q.split(".")[0] not in mod.classes:
+                raise AnalysisError(f"exp() evaluated outside a class in {q}")
+            continue
         ctx.fn(f"{NS}:{q}")
         n += 1
         hz = Hazard(model, cref)
@@ -90,7 +96,7 @@ def r_overflow(ctx, model):
             ctx.check(not bad, f"{cref.split(':')[1].split('Elastic')[0]}.{attr}: finite for large Q", model.where(f"{owner}.{attr}", f),
                       expected="no overflowing or NaN intermediate", found=str({k: env[k] for k in bad}) + " " + "; ".join(hz.trace)[:200] if bad else "finite",
                       explanation=f"{attr} combines Bose factors into a value that overflows or is NaN at low temperature", key=f"{cref.split(':')[1][:4]}.{attr}.hazard")
-    ctx.floor("functions evaluating exp()", n, 6)
+    ctx.floor("functions evaluating exp()", n, 2)
 
 
 # factorisations that exist only for positive-definite input: they raise LinAlgError for the whole (T, V) stack as soon as one
